@@ -395,6 +395,9 @@ var c11LinePool = []string{
 
 func c11LongLine(t *rapid.T) string {
 	n := pick(t, "longlen", []int{4094, 4095, 4096, 4097, 8191, 8192, 8193, 9000})
+	if rare(t, "beyond-64KiB", 12) {
+		n = pick(t, "hugelen", []int{65535, 65536, 66000})
+	}
 	switch rapid.IntRange(0, 2).Draw(t, "longkind") {
 	case 0:
 		return "||example.org/" + strings.Repeat("a", n-15) + "^"
